@@ -302,4 +302,15 @@ theorem inv_step_of_ok (T : Table) (hb : boundsOk T = true) (hok : stepOk T = tr
     refine ⟨fun _ => this.1.1, ?_, by simpa [isEof] using this.2⟩
     rw [h2]; simp [this.1.2]
 
+/-! ### the hand table -/
+
+theorem hand_boundsOk : boundsOk handTable = true := by decide +kernel
+theorem hand_stepOk : stepOk handTable = true := by decide +kernel
+
+/-- Invariant step for the hand model. -/
+theorem hand_inv_step (s : PState) (h : invB (α s) = true) (i : Inp) :
+    (isEof i = false → invB (α (pstep s i).st) = true) ∧ Seq.panic ∉ (pstep s i).out ∧
+    (pstep s i).stop = isEof i :=
+  inv_step_of_ok handTable hand_boundsOk hand_stepOk s h i
+
 end VaxisModel.Lemmas.ParserAbs
